@@ -31,6 +31,7 @@ type CliCfg struct {
 	Closer      bool // a further thread calls Close on the client at any time
 	LibMw       bool // the client is built with the library's own middlewares (TimeoutMiddleware, CorrelationValueMiddleware, DebugMiddleware)
 	SrvStray    bool // the server sends an unsolicited request message before every response (the client must skip it)
+	DropFirst   int  // the servers of the first DropFirst connections read one call's request and close without answering (a persistent fault, outside the fault budget)
 	CheckFaults bool // apply the C11 recovery oracle
 	AfterClose  bool // after Close: a further call must fail, second Close must not panic
 	ReadSizes   []int
@@ -46,6 +47,7 @@ type cliWorld struct {
 	dials  int
 	faults int            // environment faults injected so far (observed by the harness, single-threaded access)
 	seen   map[string]int // request transmissions seen by servers, per identifier
+	drops  int            // connections whose server has dropped a request so far (DropFirst)
 	conns  []*Conn
 	closeReturned mc.Var[bool] // set once the closer thread's Close has returned
 	held          map[string]*payloads.EncryptResponsePayload
@@ -82,6 +84,12 @@ func (w *cliWorld) echoServer(c *Conn) {
 			}
 		default:
 			mc.Failf("server-got-garbage: unexpected payload %T", p)
+			_ = c.Close()
+			return
+		}
+		if _, isCall := pl.(*payloads.ActivateResponsePayload); isCall && w.drops < w.cfg.DropFirst {
+			w.drops++
+			w.faults++
 			_ = c.Close()
 			return
 		}
@@ -315,6 +323,10 @@ func init() {
 	cli("clf-close-during-call-srvclose", "the same while the server may close right after replying", CliCfg{Closer: true, SrvClose: true, AfterClose: true, Callers: [][]Call{{{ID: "A"}, {ID: "B"}}}})
 	cli("clf-close-during-par", "Close at any time while two callers call concurrently", CliCfg{Closer: true, AfterClose: true, Callers: [][]Call{{{ID: "A"}}, {{ID: "B"}}}})
 	cli("clf-negotiate-nocommon", "dial with version discovery against a server sharing no version, under read/write faults: Dial fails and every connection it opened is closed", CliCfg{Negotiate: true, NoCommon: true, ReadFaults: rf, WriteFaults: wf, SrvClose: true})
+	for _, k := range []int{3, 4, 5, 9} {
+		cli(fmt.Sprintf("clf-drop-%d", k), fmt.Sprintf("the servers of the first %d connections read the request and close without answering; three sequential calls: no request is transmitted more than four times, and a call made once the server answers again succeeds", k),
+			CliCfg{DropFirst: k, Callers: [][]Call{{{ID: "A"}, {ID: "B"}, {ID: "C"}}}, CheckFaults: true, AfterClose: true})
+	}
 	cli("clf-close-only", "no faults: calls, close, call after close fails, close is idempotent", CliCfg{Callers: [][]Call{{{ID: "A"}}}, AfterClose: true, CheckFaults: true})
 }
 
